@@ -28,6 +28,21 @@ def r141_siblings(ctx, rule="R14.1"):
                    "normalize='true').ravel(), and the k-th entry fixed by the function's role (tnr 0, fpr 1, fnr 2, tpr 3)")
     A = Analysis(ctx, no_inline=[HELPER])
     n = 0
+    # sibling agreement on the interface: one signature for the four rates (a caller that passes sample_weight or pos_label by
+    # position gets the same binding from each of them)
+    import ast as _ast
+    sigs = {}
+    for name in RATES:
+        a_ = ctx.prog.functions[f"{M_BM}:{name}"].node.args
+        sigs[name] = (tuple(x.arg for x in a_.posonlyargs), tuple(x.arg for x in a_.args), tuple(x.arg for x in a_.kwonlyargs),
+                      tuple(_ast.dump(d) for d in a_.defaults), tuple(_ast.dump(d) if d is not None else None for d in a_.kw_defaults))
+    from collections import Counter
+    major, _cnt = Counter(sigs.values()).most_common(1)[0]
+    for name, sg in sigs.items():
+        okg = sg == major and _cnt >= 3
+        ctx.ob(rule, f"{M_BM}:{name}", None, okg, f"{name} has the signature shared by the rate functions {major[1] + major[2]}" if okg else
+               f"{name}{sg[1] + sg[2]} deviates from the signature of its siblings {major[1] + major[2]}: positional callers bind "
+               "sample_weight / pos_label differently", construct=f"{name}: signature")
     for name, k in RATES.items():
         fq = f"{M_BM}:{name}"
         r = A.run(fq)
